@@ -4,14 +4,8 @@
     [C05/Proofs.v] and followed by [Print Assumptions]. *)
 From Coq Require Import List Bool String.
 Import ListNotations.
-From Attrs Require Import Core.Attr Core.Init Core.InitProofs C05.Model C05.Proofs Gen.C05_consts.
+From Attrs Require Import Core.Attr Core.Init Core.InitProofs C05.Model C05.Proofs.
 Open Scope string_scope.
-
-(** The names [_frozen_setattrs] / [_frozen_delattrs] let through in the source text
-    are the model's. *)
-Theorem source_constants_agree : src_set_ok = SET_OK /\ src_del_ok = DEL_OK.
-Proof. split; reflexivity. Qed.
-Print Assumptions source_constants_agree.
 
 (** On an instance whose class resolves [__setattr__]/[__delattr__] to the frozen pair,
     every assignment, deletion and augmented assignment of any name — field or not —
